@@ -850,6 +850,15 @@ pub fn c07(tier: Tier) -> i32 {
             }
         }
     }
+    // an unprotected call in a contract, with file-level definitions before and after it (free function, struct, constant, error)
+    for (nm, before, after) in [
+        ("free-function-after", "", "function free ( uint256 a ) pure returns ( uint256 ) { return a ; }"),
+        ("free-function-before", "function free ( uint256 a ) pure returns ( uint256 ) { return a ; }", ""),
+        ("struct-constant-error", "struct S { uint256 a ; } uint256 constant K = 1 ;", "error E ( ) ; enum Kind { A }"),
+        ("free-function-with-call", "function boom ( address payable a ) { selfdestruct ( a ) ; }", ""),
+    ] {
+        items.push(l1_item(format!("sd:file-level:{}", nm), &toks_of(&format!("pragma solidity 0.8.19 ; {} contract C {{ function kill ( ) external {{ selfdestruct ( payable ( msg . sender ) ) ; }} }} {}", before, after))));
+    }
     let sw2 = refdet::sweep_texts(&items, &sd, Mode::Semantic);
     require_must(&mut run, &sw2, &["unprotected_selfdestruct"], "selfdestruct-matrix");
     let sample_sd = json!({"label": items[items.len() / 2].0, "text": items[items.len() / 2].1});
